@@ -17,12 +17,14 @@ TRpStr  == On("rpstr")  /\ ( (Strict /\ RpStrOk(Ev.s, Ev.res))
 TFidVal == On("fidval") /\ Strict /\ FidValOk(Ev.vid, Ev.key, Ev.ck, Ev.res)
 TFidStr == On("fidstr") /\ Strict /\ FidStrOk(Ev.s, Ev.res)
 TPath   == On("path")   /\ Strict /\ PathOk(Ev.s, Ev.res)
+TUpTtl  == On("upttl")  /\ Strict /\ UpTtlOk(Ev.s, Ev.res)
+TUpFid  == On("upfid")  /\ Strict /\ PathOk(StripExt(Ev.s), Ev.res)
 TIdx    == On("idx")    /\ Strict /\ IdxOk(Ev.key, Ev.off, Ev.size, Ev.res)
 TIdxRaw == On("idxraw") /\ Strict /\ IdxRawOk(Ev.by, Ev.res)
 TWalk   == On("walk")   /\ Strict /\ WalkOk(Ev.ents, Ev.res)
 TSbVal  == On("sbval")  /\ Strict /\ SbValOk(Ev, Ev.res)
 TSbRaw  == On("sbraw")  /\ Strict /\ SbRawOk(Ev.by, Ev.res)
 TraceNext == TraceReset \/ TraceSkip \/ TTtlVal \/ TTtlStr \/ TRpVal \/ TRpByte \/ TRpStr \/ TFidVal
-             \/ TFidStr \/ TPath \/ TIdx \/ TIdxRaw \/ TWalk \/ TSbVal \/ TSbRaw
+             \/ TFidStr \/ TPath \/ TUpTtl \/ TUpFid \/ TIdx \/ TIdxRaw \/ TWalk \/ TSbVal \/ TSbRaw
 TraceSpec == TraceInit /\ [][TraceNext]_tvars
 =============================================================================
